@@ -69,7 +69,7 @@ def _cuts(fn, *about):
 
 
 def r01b(P, R):
-    _sections(P, R, "R01-b", _b_parents, _b_implementers, _b_products, _b_variables, _b_branch_per_condition)
+    _sections(P, R, "R01-b", _b_parents, _b_implementers, _b_products, _b_variables, _b_branch_per_condition, _b_branch_per_condition_table)
 
 
 def _b_parents(P, R):
@@ -149,7 +149,51 @@ def _b_branch_per_condition(P, R):
     uses = has_call(Prov(gt).deep_atoms(gt.body), "type_printer::generate_branching_conditions")
     _tri(R, "R01-b", "branch-per-condition", False if lossy else (True if uses else None),
          "one branch per branching condition", "get_type_for_selection_set drops conditions (%s)" % lossy,
-         "get_type_for_selection_set does not call generate_branching_conditions directly (the run instances decide)", loc=gt0.loc())
+         "get_type_for_selection_set does not call generate_branching_conditions directly", loc=gt0.loc())
+
+
+def _b_branch_per_condition_table(P, R):
+    """two branching conditions: both of their branches are in the result, unless the one dropped is equal to the one kept.  Read from the paths of
+    get_type_for_selection_set with the enumeration replaced by two undetermined conditions and the branch builder by two undetermined
+    branches; a path that drops a branch although the two differ in the number of fields of a field list is the evidence."""
+    gt0 = P.fn(OT + "type_printer::get_type_for_selection_set")
+    gbc = P.fn(OT + "type_printer::generate_branching_conditions")
+    go = P.fn(OT + "type_printer::get_object_type_for_selection_set")
+    def thunk(ab):
+        return ab.call(gt0.path, c02._params(gt0, [("type::Type<", lambda: c02._t_type(P, ("Named", "T")))]))
+
+    def mk_branch(ab, args):
+        b = c02._Opq("branch", [("call", go.path)])
+        ab.event("made-branch", None, None, b)
+        return b
+    hooks = {gbc.path: lambda ab, args: [c02._Opq("condition 1"), c02._Opq("condition 2")], go.path: mk_branch}
+    try:
+        paths = c02._Abs(P, [gbc.path, go.path], hooks=hooks).explore(thunk)
+    except c02._Unknown as e:
+        R.undecided("R01-b", "branch-per-condition:table", "the abstract evaluation of %s does not decide whether every condition keeps its branch (%s)" % (gt0.path, e), loc=gt0.loc())
+        return
+    except (KeyError, IndexError, TypeError, AttributeError, RecursionError, ValueError) as e:
+        R.undecided("R01-b", "branch-per-condition:table", "the abstract evaluation of %s does not decide this (evaluator: %r)" % (gt0.path, e), loc=gt0.loc())
+        return
+    # the branches of a path are the undetermined values its hook calls produced: recover them from the events
+    seen, bad = 0, None
+    for st, v, evs in paths:
+        v = c02._d(v)
+        if st != "ok" or not (isinstance(v, c02._Var) and v.name == "Object" and isinstance(c02._d(v.args[0]), list)):
+            continue
+        seen += 1
+        kept = c02._d(v.args[0])
+        made = [ev[3] for ev in evs if ev[0] == "made-branch"]
+        if len(made) == 2 and len(kept) < 2:
+            for fld in ("unaliased_fields", "aliased_fields"):
+                n = [m.kids.get(("f", fld)) for m in made]
+                if all(x is not None and "#n" in x.kids for x in n) and n[0].kids["#n"] != n[1].kids["#n"]:
+                    bad = fld
+    _tri(R, "R01-b", "branch-per-condition:table", None if not seen else bad is None, "table: every condition keeps its branch (a dropped one equals a kept one)",
+         "table: %s drops the branch of a condition although its `%s` has a different number of fields than the branch it is taken to duplicate (the comparison "
+         "walks the two lists in step and stops at the shorter one): the alternative with fewer sub-fields disappears from the union and the response for that "
+         "variable assignment is not a member of the Result type" % (gt0.path, bad),
+         "no abstract path of %s returns an object selection" % gt0.path, loc=gt0.loc())
 
 
 def r01c(P, R):
